@@ -29,7 +29,9 @@ FaultOk(c) == /\ (c.target = "load" => c.index <= c.n)
               /\ (c.kind = "junos-error" => c.target = "commit")     \* <commit-results> with the error inside <routing-engine>
 
 (* C03 / C15: evaluation outcome classes of a policy, and whether it is installed already *)
-EvalClass == {"ok", "unknown-as-set", "error-E", "error-F", "malformed-annotation", "peeras", "aspath-regex", "attr-match"}
+(* sunk-then-fail: an expression one operand of which gets an error that the evaluator sinks (route query   *)
+(* of an AS answered F) and another operand of which fails the evaluation (unknown as-set)                 *)
+EvalClass == {"ok", "unknown-as-set", "error-E", "error-F", "malformed-annotation", "peeras", "aspath-regex", "attr-match", "sunk-then-fail"}
 C03Cases == {[installed |-> i, class |-> c] : i \in BOOLEAN, c \in {"unknown-as-set", "error-E", "error-F", "malformed-annotation",
                                                                       "peeras", "aspath-regex", "attr-match"}}
 C15Cases == {q \in UNION {[1..k -> EvalClass \ {"malformed-annotation"}] : k \in 2..3} :
@@ -37,13 +39,14 @@ C15Cases == {q \in UNION {[1..k -> EvalClass \ {"malformed-annotation"}] : k \in
 
 (* C16: shape of a policy-statement of the running configuration *)
 Active == {"absent", "true", "false"}
-Comment == {"none", "other", "fltr", "fltr-nospace", "fltr-bare", "fltr-bad", "fltr-empty", "prefix-only-similar"}
+Comment == {"none", "other", "fltr", "fltr-nospace", "fltr-bare", "fltr-bad", "fltr-empty", "prefix-only-similar",
+            "fltr-doublestar", "fltr-slashes", "fltr-unterminated"}       \* other decorations of the same annotation
 Body == {"reject", "terms+reject", "accept", "empty"}
 AttrOrder == {"comment-first", "active-first"}
 Shapes == {[active |-> a, comment |-> c, body |-> b, order |-> o, dupxmlns |-> d, extra |-> x] :
              a \in Active, c \in Comment, b \in Body, o \in AttrOrder, d \in BOOLEAN, x \in BOOLEAN}
-ParseableComment(c) == c \in {"fltr", "fltr-nospace", "fltr-bare"}
-MarkedComment(c) == c \in {"fltr", "fltr-nospace", "fltr-bare", "fltr-bad", "fltr-empty"}
+ParseableComment(c) == c \in {"fltr", "fltr-nospace", "fltr-bare", "fltr-doublestar", "fltr-slashes", "fltr-unterminated"}
+MarkedComment(c) == ParseableComment(c) \/ c \in {"fltr-bad", "fltr-empty"}
 Managed(sh) == sh.active # "false" /\ ParseableComment(sh.comment) /\ sh.body = "reject"
 Marked(sh) == sh.active # "false" /\ MarkedComment(sh.comment)
 ShapeCases == {[shape |-> sh, sel |-> Managed(sh), marked |-> Marked(sh)] : sh \in Shapes}
